@@ -42,7 +42,7 @@ ASSUMPTIONS = [
 BOUNDS = {"quick": {"depth_default": 4, "depth_dev": 3}, "thorough": {"depth_default": 5, "depth_dev": 4}}
 
 EVENTS = ("C0", "C1", "C2", "P1", "P1e", "P2", "P3", "Uverb", "Uuri", "Rprefix")
-VARIANTS = ("rsa", "aes_rand", "aes_rand+rsa", "aes+hmac", "aes-noverify")
+VARIANTS = ("rsa", "aes_rand", "aes_rand+rsa", "aes+hmac", "aes-noverify", "rsa/first-packet-only")
 
 GET_PROGS = {
     "default": RC.DEFAULT_GET,
@@ -87,6 +87,9 @@ def config_menu():
     # two cooperating settings: uri-append data behind URIs that are prefixes of one another, in both list orders
     m.append(("combo:uri-append+prefix-uris", {"get": GET_PROGS["b64url-uri"], "domains": b"h.example,/api,h.example,/api/v2"}))
     m.append(("combo:uri-append+prefix-uris-rev", {"get": GET_PROGS["b64url-uri"], "domains": b"h.example,/api/v2,h.example,/api"}))
+    # check-ins and callbacks on the SAME URI, told apart by the verb alone
+    m.append(("combo:same-uri-different-verbs", {"domains": b"h.example,/api,h.example,/news", "submit_uri": b"/api", "verb_get": b"GET", "verb_post": b"POST"}))
+    m.append(("combo:same-uri-different-verbs-2", {"domains": b"h.example,/news,h.example,/api", "submit_uri": b"/api", "verb_get": b"GET", "verb_post": b"PUT"}))
     m.append(("combo:post-uri-append+submit-prefix", {"post": POST_PROGS["netbios-uri/b64-body"], "domains": b"h.example,/s", "submit_uri": b"/s/ubmit", "verb_get": b"GET", "verb_post": b"POST"}))
     return m
 
@@ -160,7 +163,7 @@ class Session:
         is_get = req["method"] == self.verb_get and any(req["uri"].startswith(u) for u in self.get_uris)
         is_post = req["method"] == self.verb_post and req["uri"].startswith(self.submit_uri)
         if is_get and is_post:
-            is_post = False
+            is_post = False  # only possible when verbs coincide too, which is not generated
         if is_get:
             base = max((u for u in self.get_uris if req["uri"].startswith(u)), key=len)
             data = M.decode_message(self.get_prog, req, base_uri=base)
@@ -326,6 +329,8 @@ def decode_log(session, variant):
     cfg = beacon.BeaconConfig(session.block)
     aes_rand = session.client.aes_rand
     ak, hk = RA.derive_keys(aes_rand)
+    partial = variant.endswith("/first-packet-only")  # a consumer that takes one packet per message and stops
+    variant = variant.split("/")[0]
     kw = {"rsa": dict(rsa_private_key=session.priv), "aes_rand": dict(aes_rand=aes_rand), "aes_rand+rsa": dict(aes_rand=aes_rand, rsa_private_key=session.priv), "aes+hmac": dict(aes_key=ak, hmac_key=hk), "aes-noverify": dict(aes_key=ak, verify_hmac=False)}[variant]
     try:
         dec = c2.C2Http(cfg, **kw)
@@ -336,7 +341,8 @@ def decode_log(session, variant):
             continue  # interop failure already recorded
         try:
             got = []
-            for p in dec.iter_recover_http(raw):
+            gen = dec.iter_recover_http(raw)
+            for p in gen:
                 n = type(p).__name__
                 if n == "BeaconMetadata":
                     got.append(("metadata", p.bid, p.pid, bytes(p.aes_rand), bytes(p.info)))
@@ -344,6 +350,9 @@ def decode_log(session, variant):
                     got.append(("task", p.epoch, p.command.value, bytes(p.data)))
                 else:
                     got.append(("callback", p.counter, p.callback.value, bytes(p.data)))
+                if partial:
+                    gen.close()
+                    break
             err = None
         except ValueError as e:
             got, err = None, f"ValueError: {e}"
@@ -354,6 +363,8 @@ def decode_log(session, variant):
                 return "C07/unrelated-request-not-rejected", "ValueError", {"message": i, "result": _pj(got) if err is None else err}
             continue
         want = truth_projection(truth, variant)
+        if partial:
+            want = want[:1]
         if err is not None:
             return f"C07/decode/exception/{kind}", {"message": i, "packets": _pj(want)}, {"message": i, "error": err[:200], "first_line": raw.split(b"\r\n")[0].decode("latin-1")[:120]}
         if got != want:
